@@ -1095,11 +1095,14 @@ class Context(MetadataContextMixin, object):
                 state = c.evaluate(p, cache=cache, input_value=input_value, input_value_specified=input_value_specified)
             if state.is_error:
                 self.status = Status.ERROR
+                self.is_error = True
                 self.store_metadata()
                 state = state.next_state()
                 state.query = query.encode()
                 state.metadata["created"] = self.now()
                 self.debug(f"ERROR in '{state.query}'")
+                # Keep the failure (error flag and log) in the metadata cached for this query too
+                cache.store_metadata(state.metadata)
                 self._store_state(state)
                 state = self.index_state(state)
                 return state
